@@ -29,6 +29,8 @@ Inductive op :=
 | OEmit (a : Z)                  (* out.set(a + sum of the valid inputs) *)
 | ORaw (delta : Z)               (* graph.schedule_node(self, now + delta) *)
 | OThrow
+| OMakePassive (slot : Z)        (* input[slot].make_passive() *)
+| OMakeActive (slot : Z)         (* input[slot].make_active() *)
 | ONop.
 
 (* what user code sees of one input *)
@@ -38,7 +40,9 @@ Record inview := mkIv { v_valid : bool; v_mod : bool; v_val : Z; v_lmt : Z }.
 Definition behaviour := nat -> Z -> Z -> list inview -> sched -> list op.
 
 (* ---- dynamic state ---- *)
-Record nst := mkN { n_started : bool; n_sch : sched; n_runs : Z; n_val : option Z; n_lmt : Z }.
+Record nst := mkN { n_started : bool; n_sch : sched; n_runs : Z; n_val : option Z; n_lmt : Z;
+                     n_evals : Z (* times the graph evaluated the node: lifecycle before_node_evaluation *);
+                     n_act : list bool (* per input slot: subscribed (make_active / make_passive at run time) *) }.
 
 Record gst := mkG {
   g_now : Z;
@@ -48,7 +52,7 @@ Record gst := mkG {
   g_log : list line;         (* observations, newest first *)
   g_err : Z }.               (* 0 = running; otherwise the error kind that escaped *)
 
-Definition init_n : nst := mkN false empty_sched 0 None MIN_DT.
+Definition init_n : nst := mkN false empty_sched 0 None MIN_DT 0 [].
 Definition dflt_cfg : ncfg := mkCfg false false false 0 [].
 
 Definition emit (l : line) (g : gst) : gst :=
@@ -93,7 +97,7 @@ Fixpoint notify_from (cfgs : list ncfg) (j : nat) (src : nat) (g : gst) : gst :=
   match cfgs with
   | [] => g
   | c :: r =>
-      let g' := if existsb (fun s => (i_src s =? src)%nat && i_active s) (c_ins c)
+      let g' := if existsb (fun sa => (i_src (fst sa) =? src)%nat && snd sa) (combine (c_ins c) (n_act (node_at j g)))
                    && n_started (node_at j g)
                 then schedule_node j (g_now g) g else g in
       notify_from r (S j) src g'
@@ -111,8 +115,9 @@ Definition snapshot (code : Z) (i : nat) (now k : Z) (s : sched) (extra : Z) : l
     ++ tagq now 1 s ++ tagq now 2 s ++ tagq now 3 s ++ [extra].
 
 (* ---- one operation of user code ---- *)
-Definition set_sch (s : sched) (n : nst) : nst := mkN (n_started n) s (n_runs n) (n_val n) (n_lmt n).
-Definition set_out (v now : Z) (n : nst) : nst := mkN (n_started n) (n_sch n) (n_runs n) (Some v) now.
+Definition set_sch (s : sched) (n : nst) : nst := mkN (n_started n) s (n_runs n) (n_val n) (n_lmt n) (n_evals n) (n_act n).
+Definition set_act (a : list bool) (n : nst) : nst := mkN (n_started n) (n_sch n) (n_runs n) (n_val n) (n_lmt n) (n_evals n) a.
+Definition set_out (v now : Z) (n : nst) : nst := mkN (n_started n) (n_sch n) (n_runs n) (Some v) now (n_evals n) (n_act n).
 
 Definition do_op (cfgs : list ncfg) (i : nat) (started : bool) (opi : Z) (o : op) (g : gst) : gst :=
   if negb (g_err g =? 0) then g else
@@ -143,6 +148,8 @@ Definition do_op (cfgs : list ncfg) (i : nat) (started : bool) (opi : Z) (o : op
       else g
   | ORaw d => schedule_node i (now + d) g
   | OThrow => set_err 2 g
+  | OMakePassive sl => upd_node i (set_act (set_nth (Z.to_nat sl) false (n_act (node_at i g)))) g
+  | OMakeActive sl => upd_node i (set_act (set_nth (Z.to_nat sl) true (n_act (node_at i g)))) g
   | ONop => g
   end.
 
@@ -153,11 +160,12 @@ Fixpoint do_ops (cfgs : list ncfg) (i : nat) (started : bool) (opi : Z) (os : li
   end.
 
 (* ---- node.cpp start_impl ---- *)
-Definition set_started (n : nst) : nst := mkN true (n_sch n) (n_runs n) (n_val n) (n_lmt n).
+Definition set_started (n : nst) : nst := mkN true (n_sch n) (n_runs n) (n_val n) (n_lmt n) (n_evals n) (n_act n).
 
 Definition start_node (cfgs : list ncfg) (beh : behaviour) (i : nat) (g : gst) : gst :=
   if negb (g_err g =? 0) then g else
   let c := nth i cfgs dflt_cfg in
+  let g := upd_node i (set_act (map i_active (c_ins c))) g in      (* activate_input_slots *)
   let g1 := do_ops cfgs i false 0 (beh i (-1) (g_now g) (read_inputs c g) (n_sch (node_at i g))) g in
   if negb (g_err g1 =? 0) then g1 else
   let g2 := upd_node i set_started g1 in
@@ -182,7 +190,8 @@ Definition start_graph (cfgs : list ncfg) (beh : behaviour) (start : Z) : gst :=
   if negb (g_err g1 =? 0) then g1 else seed_cache g1.
 
 (* ---- node.cpp evaluate_impl ---- *)
-Definition inc_runs (n : nst) : nst := mkN (n_started n) (n_sch n) (n_runs n + 1) (n_val n) (n_lmt n).
+Definition inc_runs (n : nst) : nst := mkN (n_started n) (n_sch n) (n_runs n + 1) (n_val n) (n_lmt n) (n_evals n) (n_act n).
+Definition inc_evals (n : nst) : nst := mkN (n_started n) (n_sch n) (n_runs n) (n_val n) (n_lmt n) (n_evals n + 1) (n_act n).
 
 Definition iv_line (v : inview) : line := [b2z (v_valid v); b2z (v_mod v); v_val v; v_lmt v].
 
@@ -221,7 +230,7 @@ Fixpoint scan (cfgs : list ncfg) (beh : behaviour) (i : nat) (k : nat) (g : gst)
       if negb (g_err g =? 0) then g else
       let sc := slot_at i g in
       let g' :=
-        if sc =? g_now g then eval_node cfgs beh i (emit [11; Z.of_nat i; g_now g] g)
+        if sc =? g_now g then eval_node cfgs beh i (upd_node i inc_evals (emit [11; Z.of_nat i; g_now g] g))
         else if g_now g <? sc then
           (if sc <? g_nst g then mkG (g_now g) (g_slots g) sc (g_nodes g) (g_log g) (g_err g) else g)
         else g in
@@ -276,7 +285,9 @@ Definition decode_op (code a b : Z) : op :=
   if code =? 5 then OReset else
   if code =? 6 then OEmit a else
   if code =? 7 then ORaw a else
-  if code =? 8 then OThrow else ONop.
+  if code =? 8 then OThrow else
+  if code =? 9 then OMakePassive a else
+  if code =? 10 then OMakeActive a else ONop.
 
 (* script lines: 3 node k code a b *)
 Definition script_ops (w : wire) (i : nat) (k : Z) : list op :=
